@@ -647,6 +647,16 @@ func init() {
 		return math.Float32frombits(args[0].(uint32))
 	}
 
+	for name, mode := range map[string]uint64{"Trunc": 0, "Floor": 1, "Ceil": 2} {
+		mode := mode
+		I["math."+name] = func(fr *frame, args []value) value {
+			if s, ok := args[0].(sym); ok {
+				return sym{mkFRound(s.t, mode), types.Float64}
+			}
+			return math.Float64frombits(evalFRound(mode, math.Float64bits(args[0].(float64)), 64))
+		}
+	}
+
 	// ---- runtime / os / time
 	I["runtime.Goexit"] = func(fr *frame, args []value) value { panic(goexitPanic{}) }
 	I["runtime.Gosched"] = func(fr *frame, args []value) value { fr.i.p.sched.yield("Gosched"); return nil }
